@@ -141,6 +141,84 @@ theorem cheng_denominator_single (N : Nat) (hN : 1 ≤ N) :
   simp only [List.map_replicate, List.sum_replicate, nsmul_eq_mul]
   field_simp
 
+/-! ### mean of means -/
+
+/-- the Cheng weights laid out per azimuth: azimuth `g` with `|g|` accepted windows gets `|g|` copies of `1/(naz·|g|)` -/
+noncomputable def groupWeights (naz : ℕ) (groups : List (List ℝ)) : List ℝ :=
+  groups.flatMap (fun g => List.replicate g.length (1 / ((naz * g.length : ℕ) : ℝ)))
+
+theorem chengWeightsFor_groups (naz : ℕ) (groups : List (List ℝ)) (h : ∀ g ∈ groups, g ≠ []) :
+    (chengWeightsFor naz (groups.map List.length) : Except String (List ℝ)) = .ok (groupWeights naz groups) := by
+  induction groups with
+  | nil => rfl
+  | cons g gs ih =>
+    have hg : g.length ≠ 0 := by
+      have := h g List.mem_cons_self
+      simpa using this
+    have := ih (fun x hx => h x (List.mem_cons_of_mem _ hx))
+    unfold chengWeightsFor at this ⊢
+    simp only [List.map_cons, List.foldr_cons]
+    rw [this]
+    simp [hg, groupWeights]
+
+theorem weighted_sum_groups (naz : ℕ) (groups : List (List ℝ)) (f : ℝ → ℝ) :
+    ((List.zip (groups.flatMap (fun g => g.map f)) (groupWeights naz groups)).map (fun p => p.1 * p.2)).sum
+      = (groups.map (fun g => (g.map f).sum * (1 / ((naz * g.length : ℕ) : ℝ)))).sum := by
+  unfold groupWeights
+  induction groups with
+  | nil => simp
+  | cons g gs ih =>
+    simp only [List.flatMap_cons, List.map_cons, List.sum_cons]
+    rw [List.zip_append (by simp), List.map_append, List.sum_append, ih]
+    congr 1
+    have := zip_replicate_map (g.map f) (1 / ((naz * g.length : ℕ) : ℝ)) (fun v w => v * w)
+    simp only [List.length_map] at this
+    rw [this, sum_map_mul_const _ _ (fun v => v)]
+    simp only [List.map_id']
+
+/-- **The weighted mean is the plain average over the azimuths of the per-azimuth means** (in the transformed
+space: log space for lognormal), for any numbers of accepted windows per azimuth (≥ 1). -/
+theorem weighted_mean_is_mean_of_means (d : Dist) (groups : List (List ℝ)) (hne : groups ≠ []) (h : ∀ g ∈ groups, g ≠ []) :
+    nanmeanPre d ((groups.flatMap (fun g => g)).map some) (some (groupWeights groups.length groups)) =
+      some ((groups.map (fun g => (g.map d.pre).sum / (g.length : ℝ))).sum / (groups.length : ℝ)) := by
+  have hsum : (groupWeights groups.length groups).sum = 1 := by
+    obtain ⟨ws, h1, _, h3, _⟩ := weights_sum_one (groups.map List.length) (by simpa using hne)
+      (by intro c hc; simp only [List.mem_map] at hc; obtain ⟨g, hg, rfl⟩ := hc
+          have := h g hg
+          exact Nat.pos_of_ne_zero (by simpa using this))
+    rw [chengWeights_eq, List.length_map, chengWeightsFor_groups _ _ h] at h1
+    injection h1 with h1
+    rw [h1]; exact h3
+  unfold nanmeanPre
+  simp only [List.map_map]
+  have e1 : (List.map ((fun v => Option.map d.pre v) ∘ some) (groups.flatMap (fun g => g)))
+      = ((groups.flatMap (fun g => g.map d.pre))).map some := by
+    rw [List.map_flatMap, List.map_flatMap]
+    congr 1
+    funext g
+    simp [List.map_map, Function.comp]
+  rw [e1, nansumProd_explicit, nansumW_explicit, divO_real, hsum, if_neg one_ne_zero, div_one,
+    weighted_sum_groups groups.length groups d.pre]
+  congr 1
+  have hn : (groups.length : ℝ) ≠ 0 := by
+    have : groups.length ≠ 0 := by simpa using hne
+    exact_mod_cast this
+  have hdiv : ∀ (l : List ℝ) (c : ℝ), l.sum / c = (l.map (fun x => x / c)).sum := by
+    intro l c; induction l with
+    | nil => simp
+    | cons a t ih => simp only [List.sum_cons, List.map_cons, add_div, ih]
+  rw [hdiv, List.map_map]
+  congr 1
+  apply List.map_congr_left
+  intro g hg
+  have hgl : (g.length : ℝ) ≠ 0 := by
+    have := h g hg
+    have : g.length ≠ 0 := by simpa using this
+    exact_mod_cast this
+  simp only [Function.comp]
+  push_cast
+  field_simp
+
 /-! ### Non-vacuity -/
 example : (chengWeights [2, 1] : Except String (List Rat)).toOption = some [1/4, 1/4, 1/2] := by decide +kernel
 example : (chengWeights [2, 0] : Except String (List Rat)).toOption = none := by decide +kernel
